@@ -35,6 +35,11 @@ THEOREMS = [
     "Verif.C05.cropped_export_reads_back",
     "Verif.C05.channel_class_v1",
     "Verif.C05.channel_class_bytes",
+    "Verif.C05.cal_from_field_mem",
+    "Verif.C05.cal_from_field_order",
+    "Verif.C05.slice_calibration_spec",
+    "Verif.C05.channel_calibration_spec",
+    "Verif.C05.channel_calibration_whole",
     "Verif.C05.pixels_split",
     "Verif.C05.cropped_kymo_lines",
     "Verif.C05.attr_table_nodup",
@@ -109,9 +114,27 @@ def src_tokens(e):
     return f"{e['kind']} {enc_list(e['ts'])}"
 
 
-def cal_order(spec, chname):
-    """calibration items holding `chname`, in h5py's iteration order (group names sorted)"""
-    return [c for c in sorted(spec["calibrations"], key=lambda c: c["idx"]) if chname in c["channels"]]
+def cal_groups(spec):
+    """the groups under Calibration/ in h5py's iteration order (names sorted), each as {channel: time | None}"""
+    return [{nm: a.get("Stop time (ns)") for nm, a in c["channels"].items()} for c in sorted(spec["calibrations"], key=lambda c: c["idx"])]
+
+
+def cal_positions(spec):
+    """cal_id (unique per group in the generated files) -> position of the group in h5py order"""
+    return {next(iter(c["channels"].values()))["cal_id"]: i for i, c in enumerate(sorted(spec["calibrations"], key=lambda c: c["idx"])) if c["channels"]}
+
+
+def enc_groups(groups):
+    if not groups:
+        return "-"
+    return "".join("@" + "".join(f"{nm.replace(' ', '_')}={'N' if t is None else int(t)}," for nm, t in g.items()) for g in groups)
+
+
+def applicable(groups, chname, start, stop):
+    """the property text: the last item applied at or before the start, then those applied inside the range"""
+    items = sorted(((g[chname], i) for i, g in enumerate(groups) if g.get(chname) is not None), key=lambda x: x[0])
+    pre = [i for t, i in items if t <= start]
+    return ([pre[-1]] if pre else []) + [i for t, i in items if start < t < stop]
 
 
 class FakeDset:
@@ -319,6 +342,28 @@ def _dset_impl(case):
     return out
 
 
+def _calchan_impl(case):
+    """Calibration groups in a real (in-memory) HDF5 file -> ForceCalibrationList.from_field -> a Slice carrying the list
+    -> optional [a:b] -> .calibration"""
+    from lumicks.pylake.calibration import ForceCalibrationList
+    from lumicks.pylake.channel import Slice
+
+    with mem_h5() as f:
+        for i, g in enumerate(case["groups"]):
+            gg = f.require_group("Calibration").require_group(f"{i:03d}")
+            for nm, t in g.items():
+                sub = gg.require_group(nm)
+                sub.attrs["cal_id"] = i
+                sub.attrs["Kind"] = "Full calibration"
+                sub.attrs["Start time (ns)"] = 0
+                if t is not None:
+                    sub.attrs["Stop time (ns)"] = t
+        sl = Slice(make_source(case["src"]), calibration=ForceCalibrationList.from_field(f, case["ch"]))
+        if case.get("win"):
+            sl = sl[case["win"][0] : case["win"][1]]
+        return [enc_list([int(it["cal_id"]) for it in sl.calibration])]
+
+
 def _class_impl(case):
     from lumicks.pylake.channel import channel_class
 
@@ -372,19 +417,16 @@ def file_plan(case):
         if ch["group"] in ("Force HF", "Force LF") and ch["name"][-1] in "xy":
             path = f"{ch['group']}/{ch['name']}"
             e = exp[path]
-            items = cal_order(spec, ch["name"])
-            times = [c["channels"][ch["name"]]["Stop time (ns)"] for c in items]
             ts = e["ts"]
             if not ts:
                 continue
-            start = ts[0]
-            stop = ts[0] + len(ts) * e["dt"] if e["kind"] == "cont" else ts[-1] + 1
-            plan.append((f"c05.cal {enc_list(times)} {start} {stop}", "cal", (path, None)))
+            # the model goes from the Calibration groups (from_field) through the slice (C01) to the filter
+            head = f"c05.calchan {enc_groups(cal_groups(spec))} {ch['name'].replace(' ', '_')} {src_tokens(e)}"
+            plan.append((head, "cal", (path, None)))
             for w in case.get("cal_windows", []):
-                # the sliced channel's own start/stop are C01's business; pass what a C01-correct slice reports.
                 # An empty slice has no time range to speak of: not judged.
                 if sliced_bounds(e, w) is not None:
-                    plan.append((None, "calslice", (path, w)))
+                    plan.append((f"{head} {w[0]} {w[1]}", "calslice", (path, w)))
     if case["mode"] == "omit":
         pats = case["omit"]
         paths = case["all_paths"]
@@ -422,6 +464,9 @@ def ops(case):
         return [f"c05.dtq {enc_rat(dec_float(case['rate']))}"]
     if k == "omit":
         return [f"c05.omit {enc_listlist([[ord(c) for c in p] for p in case['pats']])} {enc_listlist([[ord(c) for c in p] for p in case['paths']])}"]
+    if k == "calchan":
+        w = case.get("win")
+        return [f"c05.calchan {enc_groups(case['groups'])} {case['ch'].replace(' ', '_')} {src_tokens(case['src'])}" + (f" {w[0]} {w[1]}" if w else "")]
     if k == "dset":
         return [f"c05.todset {src_tokens(case['src'])}", f"c05.readback {src_tokens(case['src'])}"]
     if k == "class":
@@ -435,19 +480,7 @@ def ops(case):
         out = []
         exp = bh.expected_channels(case["spec"])
         for line, kind, payload in file_plan(case):
-            if kind == "calslice":
-                path, w = payload
-                e = exp[path]
-                sb = sliced_bounds(e, w)
-                chname = path.split("/")[1]
-                items = cal_order(case["spec"], chname)
-                times = [c["channels"][chname]["Stop time (ns)"] for c in items]
-                if sb is None:
-                    out.append(f"c05.cal [] 0 0")
-                else:
-                    out.append(f"c05.cal {enc_list(times)} {sb[0]} {sb[1]}")
-            else:
-                out.append(line)
+            out.append(line)
         return out
     raise ValueError(k)
 
@@ -500,6 +533,8 @@ def impl(case):
             return [_omit_impl(case)]
         if k == "dset":
             return _dset_impl(case)
+        if k == "calchan":
+            return _calchan_impl(case)
         if k == "class":
             return _class_impl(case)
         if k == "cropread":
@@ -585,10 +620,9 @@ def _file_impl(case):
                             continue
                         s = routes[-1] if case.get("cal_by_attr", True) else routes[0]
                         answers.append(enc_list([int(it["cal_id"]) for it in s.calibration]))
-                        # the model numbers items by their position in h5py order; translate ids to positions
-                        chname = n
-                        order = [c["channels"][chname]["cal_id"] for c in cal_order(spec, chname)]
-                        answers[-1] = enc_list([order.index(int(it["cal_id"])) for it in s.calibration])
+                        # the model numbers items by the position of their group in h5py order
+                        pos = cal_positions(spec)
+                        answers[-1] = enc_list([pos[int(it["cal_id"])] for it in s.calibration])
                     elif kind == "omit":
                         with h5py.File(out, "r") as g:
                             flags = []
@@ -740,6 +774,15 @@ def oracle(case, ia):
         return None if ia[0] == exp else f"omit: datasets present {ia[0]}, expected {exp} for patterns {case['pats']}"
     if k == "file":
         return _file_oracle(case, ia)
+    if k == "calchan":
+        e = case["src"]
+        smp = src_samples(e)
+        if case.get("win"):
+            smp = [(t, v) for t, v in smp if case["win"][0] <= t < case["win"][1]]
+        if not smp:
+            return None  # no sample: no time range to speak of
+        want = applicable(case["groups"], case["ch"], smp[0][0], smp[-1][0] + (e["dt"] if e["kind"] == "cont" else 1))
+        return None if ia[0] == enc_list(want) else f"calibration: channel {case['ch']}{case.get('win') or ''} lists groups {ia[0]}, applicable to its time range are {enc_list(want)}"
     if k == "dset":
         # re-export without loss: what is read from the written dataset is the channel that was written
         e = case["src"]
@@ -841,12 +884,7 @@ def _file_oracle(case, ia):
             chname = path.split("/")[1]
             e = exp[path]
             sb = sliced_bounds(e, w) if w is not None else ((e["ts"][0], e["ts"][0] + len(e["ts"]) * e["dt"]) if e["kind"] == "cont" else (e["ts"][0], e["ts"][-1] + 1))
-            if sb is None:
-                want = []
-            else:
-                items = sorted(enumerate(c["channels"][chname]["Stop time (ns)"] for c in cal_order(spec, chname)), key=lambda x: x[1])
-                pre = [i for i, t in items if t <= sb[0]]
-                want = ([pre[-1]] if pre else []) + [i for i, t in items if sb[0] < t < sb[1]]
+            want = [] if sb is None else applicable(cal_groups(spec), chname, sb[0], sb[1])
             if ans != enc_list(want):
                 return f"calibration: {path}{'' if w is None else list(w)} lists items {ans}, applicable are {enc_list(want)}"
         elif kind == "omit":
@@ -914,6 +952,8 @@ def nontrivial(case, ia):
         return len(case["present"]) > 0
     if k in ("dset", "class"):
         return True
+    if k == "calchan":
+        return len(case["groups"]) > 0 and ia[0] != "[]"
     if k == "cropread":
         return len(src_samples(case["src"])) > 0
     if k == "file":
@@ -1032,6 +1072,12 @@ def crop_windows(rng, spec, n):
 
 def file_case(rng, stream, size="small", mode=None, version=None):
     spec = bh.make_spec(rng, version=version, size=size)
+    r2 = rng.fork("cal-notime")
+    for c in spec["calibrations"]:
+        for nm in list(c["channels"]):
+            if r2.chance(0.15):
+                # a calibration entry without the time field is skipped by from_field
+                c["channels"][nm] = {k_: v_ for k_, v_ in c["channels"][nm].items() if k_ != "Stop time (ns)"}
     mode = mode or rng.choice(["omit", "crop", "crop"])
     case = {"stream": stream, "op": "file", "spec": spec, "mode": mode, "compression": rng.choice([0, 1, 5, 9]), "cal_by_attr": rng.chance(0.5)}
     case = finalize(case)
@@ -1164,6 +1210,42 @@ def cases(tier, rng):
             if a > b and sub.chance(0.8):
                 a, b = b, a
             yield {"stream": "random", "op": "cropread", "src": e, "crop": [int(a), int(b)], "compression": sub.choice([0, 1, 5, 9]), "subseed": i}
+
+    # ---- calibration of a channel: Calibration groups -> from_field -> slice -> filter
+    ent = [None, "absent", 95, 100, 105, 110, 130]
+    csrc = [{"kind": "cont", "start": 100, "dt": 10, "data": [1, 2, 3]}, {"kind": "ts", "ts": [100, 104, 110]}]
+    wins = [None, [100, 130], [101, 111], [105, 125], [111, 200], [0, 100]]
+    for e in csrc:
+        for w in wins:
+            for g1 in ent:
+                yield {"stream": "small-scope", "op": "calchan", "groups": [] if g1 == "absent" else [{"Force 1x": g1, "Force 2x": 100}], "ch": "Force 1x", "src": e, "win": w}
+                for g2 in ent:
+                    if quick and w not in (None, [105, 125]):
+                        continue
+                    groups = [({} if g == "absent" else {"Force 1x": g}) for g in (g1, g2)]
+                    yield {"stream": "small-scope", "op": "calchan", "groups": groups, "ch": "Force 1x", "src": e, "win": w}
+    r = rng.fork("c05-calchan")
+    for i in range(200 if quick else 4000):
+        sub = r.fork(i)
+        base = sub.choice([0, 1_600_000_000_000_000_000])
+        dt = sub.choice([1, 3, 10, 55])
+        n = sub.randint(0, 8)
+        if sub.chance(0.5):
+            e = {"kind": "cont", "start": base + 100, "dt": dt, "data": list(range(n))}
+        else:
+            e = {"kind": "ts", "ts": sorted(base + 100 + sub.randint(0, 8 * dt) for _ in range(n))}
+        groups = []
+        for _ in range(sub.randint(0, 5)):
+            g = {}
+            for nm in ("Force 1x", "Force 1y", "Force 2x"):
+                c = sub.randint(0, 5)
+                if c == 0:
+                    continue
+                g[nm] = None if c == 1 else base + 100 + sub.randint(-2, 9) * dt + sub.choice([0, 0, 1, -1])
+            groups.append(g)
+        pts = [base + 100 + j * dt + d for j in (-1, 0, 1, n - 1, n, n + 1) for d in (-1, 0, 1)]
+        w = None if sub.chance(0.3) else sorted([sub.choice(pts), sub.choice(pts)])
+        yield {"stream": "random", "op": "calchan", "groups": groups, "ch": sub.choice(["Force 1x", "Force 1x", "Force 2x"]), "src": e, "win": w, "subseed": i}
 
     # ---- channels by attribute: the whole table on a file with every channel, with none, with each one missing,
     #      and on random subsets
